@@ -218,6 +218,7 @@ def gen_case(rng, n):
 
 def gen_malformed(rng, n):
     g = Gen(rng)
+    g.no_drop = True
     words = ["write", "free", "gdelete", "gfree", "gnew", "invalidate", "setcur", "typecheck", "alloc", "b1", "b2", "null", "@7", "-3", "zz",
              "999999999999", "on", "off", "new", "malloc", "13", "14", "99", "x.c", ""]
     for _ in range(n):
